@@ -36,6 +36,7 @@ type LoopSpec struct {
 	Invariants []Clause
 	Decreases  *Clause
 	Unroll     int
+	Uses       []Clause // instances of separately proved lemmas, assumed at the loop head
 }
 
 type Clause struct {
@@ -63,7 +64,9 @@ type Contract struct {
 	Loops    map[int]*LoopSpec
 	Modifies []string
 	Trusted  bool
+	Pure     bool     // does not modify the pointees of its pointer parameters (checked: frame obligation)
 	Tier     string   // "" (always) or "thorough" (too slow for the quick tier)
+	Ghosts   []string // locals that postconditions may mention (zero value where not in scope)
 	Other    []string // verbatim clauses for other tools
 	Line     int
 }
@@ -159,7 +162,7 @@ func parseContractFile(path string) (*ContractFile, error) {
 				cur.Loops[n] = ls
 			}
 			switch m[2] {
-			case "invariant", "decreases":
+			case "invariant", "decreases", "use":
 				e, err := parseCExpr(m[3])
 				if err != nil {
 					return nil, fmt.Errorf("%s:%d: %v in %q", path, lineNo, err, m[3])
@@ -167,6 +170,8 @@ func parseContractFile(path string) (*ContractFile, error) {
 				cl := Clause{Text: m[3], Expr: e, Line: lineNo}
 				if m[2] == "invariant" {
 					ls.Invariants = append(ls.Invariants, cl)
+				} else if m[2] == "use" {
+					ls.Uses = append(ls.Uses, cl)
 				} else {
 					ls.Decreases = &cl
 				}
@@ -185,8 +190,14 @@ func parseContractFile(path string) (*ContractFile, error) {
 			}
 		case "trusted":
 			cur.Trusted = true
+		case "pure":
+			cur.Pure = true
 		case "tier":
 			cur.Tier = strings.TrimSpace(rest)
+		case "ghost":
+			for _, p := range strings.Split(rest, ",") {
+				cur.Ghosts = append(cur.Ghosts, strings.TrimSpace(p))
+			}
 		default:
 			cur.Other = append(cur.Other, body)
 		}
